@@ -565,7 +565,7 @@ func main() {
 			e := &vsched.Explorer{Bound: pass, Horizon: 400000, Body: body(sc), Shard: f.Shard, Shards: f.Shards, Deadline: dl}
 			e.Check = func(x *vsched.Result) {
 				finish(rep, scen, x)
-				if vsched.TraceOn && len(x.Trace) > 1000 {
+				if vsched.TraceOn && len(x.Trace) > 200000 {
 					h := map[string]int{}
 					for _, t := range x.Trace {
 						h[t]++
